@@ -309,7 +309,10 @@ def run(ctx):
         ctx.model_violation("TmObject model", r)
     plans = [("depth1-all", cfg(1, "AllForms", "{1,2,3,4,5,6,7,8}", "{1,2,3}", "Both", "NoOps", "gen")),
              ("depth2-all", cfg(2, "AllForms", "{3,4,5,7}", "{1,2}", "Both", "NoOps", "gen")),
-             ("depth3-wrap", cfg(3, "MiniForms", "{7,8}", "{2}", "One", "NoOps", "gen", "WrapOps"))]
+             ("depth3-wrap", cfg(3, "MiniForms", "{7,8}", "{2}", "One", "NoOps", "gen", "WrapOps")),
+             # products of two rotations of pi - 1e-3 about orthogonal axes land 5e-7 from a half turn: the known
+             # finding log_near_pi is reproduced by every run from these fixed histories
+             ("depth3-nearpi", cfg(3, "MiniForms", "{4,6}", "{2}", "Both", "NoOps", "gen", "GroupOps"))]
     if ctx.quick:
         plans.append(("depth3-core", cfg(3, "MiniForms", "{4}", "{2}", "One", "CtorOps", "gen")))
     else:
@@ -345,7 +348,8 @@ def run(ctx):
     with ctx.timed("simulate"):
         for depth in ((4, 6, 9, 12) if ctx.quick else (4, 5, 6, 7, 8, 9, 10, 11, 12)):
             g = tlc.run("TmObjectMC", cfg_text=cfg(depth, "AllForms", "{1,2,3,4,5,7,8}", "{1,2,3}", "Both", "NoOps", "gen"),
-                        simulate="num=%d" % n_sim, depth=depth + 1, seed=ctx.seed + depth, workers=4, timeout=600)
+                        simulate="num=%d" % (n_sim * (4 if ctx.quick else 1)), depth=depth + 1, seed=ctx.seed + depth,
+                        workers=1 if ctx.quick else 4, timeout=600)   # one worker in the quick tier: reproducible behaviours
             ctx.add_tlc("simulate-depth%d" % depth, g)
             behs = g.json
             sim_total += len(behs)
